@@ -89,7 +89,7 @@ func genMatcher(t *rapid.T, depth int) MSpec {
 
 func gen(t *rapid.T) Case {
 	var c Case
-	for i, n := 0, rapid.IntRange(1, 8).Draw(t, "nsteps"); i < n; i++ {
+	for i, n := 0, rapid.IntRange(1, rig.Up(8)).Draw(t, "nsteps"); i < n; i++ {
 		var s Step
 		switch k := rapid.IntRange(0, 9).Draw(t, "skind"); {
 		case k < 6 || i == 0:
